@@ -67,13 +67,15 @@ def case_strategy(thorough=False):
     which = st.sampled_from([0] * 6 + [1] * 6 + [2] * 6 + [3]) if thorough else st.integers(0, 2)
     bulk = st.none() | st.tuples(which, st.integers(-6, 12)).map(list)
     return st.builds(
-        lambda a, p, r, init, ops, lat, bulk, chunk: {
+        lambda a, p, r, init, ops, lat, bulk, chunk, meta: {
             'activation': a, 'prefetch': p, 'reorg_limit': r, 'init': init, 'ops': ops, 'lat': lat,
-            'bulk': bulk, 'chunk': chunk},
+            'bulk': bulk, 'chunk': chunk,
+            # meta-file stratum (node.META_SIZES); not with the 65536 bulk (tens of thousands of files)
+            'meta': 0 if bulk and bulk[0] == 3 else meta},
         st.integers(0, 9), st.integers(1, 8), st.sampled_from([1, 2, 3, 4, 6]),
         st.lists(scenario.block_desc(max_txs=4), min_size=6, max_size=14),
         st.lists(OP, min_size=1, max_size=12),
-        st.lists(st.integers(0, 2), max_size=40), bulk, scenario.CHUNKS)
+        st.lists(st.integers(0, 2), max_size=40), bulk, scenario.CHUNKS, scenario.META)
 
 
 CASE = case_strategy()
@@ -265,16 +267,20 @@ class Machine:
 def run_case(scratch, case):
     from pbt import node as node_mod
     node_mod.CHUNK_OVERRIDE = case.get('chunk')
+    node_mod.META_OVERRIDE = case.get('meta') or 0
     try:
         return _run_case(scratch, case)
     finally:
         node_mod.CHUNK_OVERRIDE = None
+        node_mod.META_OVERRIDE = 0
 
 
 def _run_case(scratch, case):
     m = Machine(scratch, case)
     if case.get('chunk'):
         m.info['classes'].add('small_chunks')
+    if case.get('meta'):
+        m.info['classes'].add('small_meta_files')
     try:
         run_sim(m.run, chooser=m.chooser, vt_deadline=20000)
     except Violation as v:
